@@ -14,10 +14,14 @@
 #include <algorithm>
 #include <deque>
 #include <pthread.h>
+#include <dirent.h>
 #include <sys/ioctl.h>
+#include <sys/socket.h>
+#include <sys/un.h>
 
 extern "C" {
 #include "ares_stub.h"
+#include "ctl_proto.h"
 }
 
 using namespace vf;
@@ -909,6 +913,15 @@ public:
                 xcm_attr_map_add_str(a, "xcm.local_addr", la.c_str());
             }
         }
+        // a third of the cases have the control interface enabled, with a client that sends
+        // requests and never reads the (38 kB) replies
+        bool lazy_ctl = (seed >> 10) % 3 == 0;
+        std::string ctl_dir = tmpdir() + "/ctl05";
+        mkdir(ctl_dir.c_str(), 0755);
+        setenv("XCM_CTL", lazy_ctl ? ctl_dir.c_str() : "/nonexistent-xcm-ctl", 1);
+        std::vector<std::string> ctl_before;
+        if (lazy_ctl) { DIR *dd = opendir(ctl_dir.c_str()); struct dirent *de; while (dd && (de = readdir(dd))) if (de->d_name[0] != '.') ctl_before.push_back(de->d_name); if (dd) closedir(dd); c.cls("C05:control-client-not-reading"); }
+        std::vector<int> ctl_fds;
         Ep S, Pr;
         S.tag = 2;
         Pr.tag = 3;
@@ -928,6 +941,22 @@ public:
         }
         S.closed = false;
         S.fd = x_fd(S);
+        if (lazy_ctl) {
+            DIR *dd = opendir(ctl_dir.c_str());
+            struct dirent *de;
+            while (dd && (de = readdir(dd))) {
+                if (de->d_name[0] == '.' || std::find(ctl_before.begin(), ctl_before.end(), de->d_name) != ctl_before.end()) continue;
+                int fd = socket(AF_UNIX, SOCK_SEQPACKET | SOCK_NONBLOCK, 0);
+                struct sockaddr_un ua;
+                memset(&ua, 0, sizeof(ua));
+                ua.sun_family = AF_UNIX;
+                snprintf(ua.sun_path, sizeof(ua.sun_path), "%s/%s", ctl_dir.c_str(), de->d_name);
+                if (connect(fd, (struct sockaddr *)&ua, sizeof(ua)) == 0) {
+                    ctl_fds.push_back(fd);
+                } else close(fd);
+            }
+            if (dd) closedir(dd);
+        }
         auto accept_peer = [&]() {
             for (int i = 0; i < 400 && !Pr.s; i++) {
                 sh_enter(Pr.tag, 1);
@@ -989,6 +1018,12 @@ public:
             }
             double d1 = now_s() - t1;
             ncalls++;
+            for (int cfd : ctl_fds) {
+                static struct ctl_proto_msg req;
+                req.type = ctl_proto_type_get_all_attr_req;
+                ssize_t sr = send(cfd, &req, sizeof(req), MSG_NOSIGNAL | MSG_DONTWAIT);
+                (void)sr;
+            }
             if (sh_sleep_violations()) o = failf("C05: %s (in %s, phase %s, transport %s)", sh_sleep_violation_text(), what, PN[phase], tp_name(tp));
             else if (d1 > 1.0) o = failf("C05: %s took %.2f s on a non-blocking socket (phase %s)", what, d1, PN[phase]);
         }
@@ -1000,6 +1035,8 @@ public:
         }
         x_close(S);
         x_close(Pr);
+        for (int cfd : ctl_fds) close(cfd);
+        setenv("XCM_CTL", "/nonexistent-xcm-ctl", 1);
         w.drain_accept_queue(sv);
         count("C05:api_calls", ncalls);
         c.nt(phase != 0 && ncalls > 0);
